@@ -21,12 +21,19 @@
  *                                independent decoder;  t<i>  carquet decompress of the first half of the last
  *                                successful output of input i.
  *                                -> one token per step: "OK:clen:cap:bound:rt:lib" | "ERR:code:cap:bound" | "T:ERR" | "T:OK:eq" | "T:none"
+ *   pages <codec> <i32|ba> <seed> <specs>   a history of PAGES through ONE carquet_page_writer (the consumer that
+ *                                allocates "exactly bound" for the codecs): specs, comma separated, <kind><bytes> with
+ *                                kind r (random, incompressible), t (text), z (zeros): add_values, finalize, then the
+ *                                page body is decompressed into exactly uncompressed_size bytes by carquet and by the
+ *                                system library and compared with the PLAIN encoding of the values; reset.
+ *                                -> one token per page: "OK:usize:csize:rt:lib" | "ERR:status" | "SIZES:u:c:page"
  */
 #include "hcommon.h"
 #include <snappy-c.h>
 #include <lz4.h>
 #include <zlib.h>
 #include <zstd.h>
+#include <carquet/types.h>
 
 extern int carquet_snappy_decompress(const uint8_t*, size_t, uint8_t*, size_t, size_t*);
 extern int carquet_snappy_compress(const uint8_t*, size_t, uint8_t*, size_t, size_t*);
@@ -200,6 +207,89 @@ static void hist_case(void) {
     for (int i = 0; i < k; i++) { free(xb[i]); if (lastb[i]) free(lastb[i]); }
 }
 
+typedef struct carquet_page_writer carquet_page_writer_t;
+extern carquet_page_writer_t* carquet_page_writer_create(carquet_physical_type_t type, carquet_encoding_t encoding,
+    carquet_compression_t compression, int16_t max_def_level, int16_t max_rep_level, int32_t type_length);
+extern void carquet_page_writer_destroy(carquet_page_writer_t* writer);
+extern void carquet_page_writer_reset(carquet_page_writer_t* writer);
+extern int carquet_page_writer_add_values(carquet_page_writer_t* writer, const void* values, int64_t num_values,
+    const int16_t* def_levels, const int16_t* rep_levels);
+extern int carquet_page_writer_finalize(carquet_page_writer_t* writer, const uint8_t** page_data, size_t* page_size,
+    int32_t* uncompressed_size, int32_t* compressed_size);
+
+static uint64_t pg_rng;
+static uint32_t pg_rnd(void) { pg_rng ^= pg_rng << 13; pg_rng ^= pg_rng >> 7; pg_rng ^= pg_rng << 17; return (uint32_t)(pg_rng >> 16); }
+static void pg_fill(uint8_t* p, size_t n, char kind) {
+    static const char text[] = "the quick brown fox jumps over the lazy dog; ";
+    for (size_t i = 0; i < n; i++)
+        p[i] = kind == 'r' ? (uint8_t)pg_rnd() : kind == 't' ? (uint8_t)text[i % (sizeof text - 1)] : 0;
+}
+
+static void pages_case(void) {
+    const char* cn = h_tok[1];
+    int codec = !strcmp(cn, "snappy") ? 0 : !strcmp(cn, "lz4") ? 1 : !strcmp(cn, "gzip") ? 2 : !strcmp(cn, "zstd") ? 3 : -1;
+    int is_ba = !strcmp(h_tok[2], "ba");
+    if (codec < 0) { puts("ERR bad-pages"); return; }
+    carquet_compression_t cc = codec == 0 ? CARQUET_COMPRESSION_SNAPPY : codec == 1 ? CARQUET_COMPRESSION_LZ4_RAW
+                             : codec == 2 ? CARQUET_COMPRESSION_GZIP : CARQUET_COMPRESSION_ZSTD;
+    pg_rng = 0x243F6A8885A308D3ull ^ (uint64_t)strtoull(h_tok[3], NULL, 10) * 0x9E3779B97F4A7C15ull;
+    if (!pg_rng) pg_rng = 1;
+    carquet_page_writer_t* w = carquet_page_writer_create(is_ba ? CARQUET_PHYSICAL_BYTE_ARRAY : CARQUET_PHYSICAL_INT32,
+                                                          CARQUET_ENCODING_PLAIN, cc, 0, 0, 0);
+    if (!w) { puts("ERR create"); return; }
+    int first = 1; size_t prev_want = 0;
+    for (char* st = strtok(h_tok[4], ","); st; st = strtok(NULL, ",")) {
+        if (!first) putchar(' ');
+        first = 0;
+        char kind = st[0]; size_t want;
+        /* size: a number, b[+-K] = the codec's bound for the previous page's size, p[+-K] = previous size */
+        if (st[1] == 'b') { long v = (long)codec_bound(codec, prev_want) + (st[2] ? atol(st + 2) : 0); want = v < 0 ? 0 : (size_t)v; }
+        else if (st[1] == 'p') { long v = (long)prev_want + (st[2] ? atol(st + 2) : 0); want = v < 0 ? 0 : (size_t)v; }
+        else want = (size_t)strtoull(st + 1, NULL, 10);
+        if (want < 8) want = 8;      /* column_writer.c never finalizes a page without values */
+        if (!is_ba) want &= ~(size_t)3;
+        prev_want = want;
+        /* expected PLAIN body */
+        size_t body_n; uint8_t* body; void* vals; int64_t count; uint8_t* pool = NULL;
+        if (!is_ba) {
+            count = (int64_t)(want / 4); body_n = (size_t)count * 4;
+            body = xalloc(body_n); pg_fill(body, body_n, kind);
+            vals = xalloc(body_n); memcpy(vals, body, body_n);
+        } else {
+            /* values of 0..40 bytes until the body (4-byte length + bytes each) reaches `want` */
+            size_t cap_vals = want / 4 + 2; carquet_byte_array_t* a = (carquet_byte_array_t*)calloc(cap_vals, sizeof *a);
+            pool = xalloc(want + 64); pg_fill(pool, want + 64, kind);
+            body = xalloc(want + 64); body_n = 0; count = 0; size_t used = 0;
+            while (body_n + 4 <= want) {
+                size_t len = pg_rnd() % 41; if (body_n + 4 + len > want) len = want - body_n - 4;
+                a[count].data = pool + used; a[count].length = (int32_t)len;
+                body[body_n] = (uint8_t)len; body[body_n+1] = (uint8_t)(len >> 8); body[body_n+2] = 0; body[body_n+3] = 0;
+                memcpy(body + body_n + 4, pool + used, len);
+                body_n += 4 + len; used += len; count++;
+            }
+            vals = a;
+        }
+        const uint8_t* page = NULL; size_t page_size = 0; int32_t usize = -1, csize = -1;
+        int r = count ? carquet_page_writer_add_values(w, vals, count, NULL, NULL) : 0;
+        if (r == 0) r = carquet_page_writer_finalize(w, &page, &page_size, &usize, &csize);
+        if (r != 0) printf("ERR:%d", r);
+        else if (usize < 0 || csize < 0 || (size_t)csize > page_size || (size_t)usize != body_n) printf("SIZES:%d:%d:%zu:%zu", usize, csize, page_size, body_n);
+        else {
+            void* sb; uint8_t* sbuf = exact((size_t)csize, &sb); memcpy(sbuf, page + (page_size - (size_t)csize), (size_t)csize);
+            void* db; uint8_t* d = exact(body_n, &db); size_t out = (size_t)-1;
+            int r2 = codec_decompress(codec, sbuf, (size_t)csize, d, body_n, &out);
+            int rt = (r2 == 0 && out == body_n && (body_n == 0 || memcmp(d, body, body_n) == 0));
+            int lib = lib_decodes(codec, sbuf, (size_t)csize, body, body_n);
+            printf("OK:%d:%d:%d:%d", usize, csize, rt, lib);
+            free(sb); free(db);
+        }
+        free(body); free(vals); if (pool) free(pool);
+        carquet_page_writer_reset(w);
+    }
+    putchar('\n');
+    carquet_page_writer_destroy(w);
+}
+
 int main(void) {
     while (h_readline()) {
         h_split();
@@ -211,6 +301,7 @@ int main(void) {
         else if (!strcmp(h_tok[0], "gz") && h_ntok == 4) comp_case(2, atoi(h_tok[1]), atol(h_tok[2]), h_tok[3]);
         else if (!strcmp(h_tok[0], "zs") && h_ntok == 4) comp_case(3, atoi(h_tok[1]), atol(h_tok[2]), h_tok[3]);
         else if (!strcmp(h_tok[0], "hist") && h_ntok >= 5) hist_case();
+        else if (!strcmp(h_tok[0], "pages") && h_ntok == 5) pages_case();
         else if (!strcmp(h_tok[0], "slen") && h_ntok == 2) {
             size_t n; void* b; uint8_t* p = h_unhex(h_tok[1], &n, 0, &b); size_t len = 0;
             int r = carquet_snappy_get_uncompressed_length(p, n, &len);
